@@ -41,6 +41,7 @@ from adaptix import (  # noqa: E402
 )
 from adaptix import load_error as le  # noqa: E402
 from props.c18_enum_flag import ref_style  # noqa: E402
+from props import probes03  # noqa: E402
 
 PROP = "C03"
 DEBUG = [DebugTrail.DISABLE, DebugTrail.FIRST, DebugTrail.ALL]
@@ -867,6 +868,10 @@ def skeleton_only_difference(expected, actual, tree) -> bool:
 
 
 def check_case(ctx: runner.Ctx, case):  # noqa: C901, PLR0912, PLR0915
+    if case.get("probe_kind") == "omit_equal":
+        return probes03.check_omit_equal(ctx, case)
+    if case.get("probe_kind") == "inherit":
+        return probes03.check_inherit(ctx, case)
     ms, recipe, strict = case["model"], case["recipe"], case["strict"]
     extract = case.get("extract") or {}
     if case.get("excluded_known"):
@@ -1649,6 +1654,13 @@ def explore(ctx: runner.Ctx):
     if ctx.shard == 0:
         for case in DOC_EXAMPLES:
             check_case(ctx, case)
+    # two exhaustive side tables (props/probes03.py): omit_default by EQUALITY for defaults without a literal form; a name_mapping
+    # bound to an ancestor laid out alike in children and grandchildren
+    side = [*probes03.omit_equal_cases(), *probes03.inherit_cases()]
+    for i, c in enumerate(side):
+        if i % ctx.nshards == ctx.shard:
+            runner.guarded(ctx, lambda k: check_case(ctx, k), c)
+    ctx.mark_exhaustive(f"side tables: {len(side)} (omit_default equality, inherited name_mapping) cases")
     total = ctx.budget(3200, 120000)
     probes = max(2, total // 40)
     active = exclusions_active()
